@@ -8,7 +8,8 @@
    exactly the solo result; for the two known defective shapes it must exhibit the defect. *)
 From Mage Require Import Base.Strs Model.Procs.
 
-Inductive shape := Distinct | SameDir | SharedEntry.
+(* Gated: a launch whose order was enforced by the go-tool gate (harness/c20gate): inclusion only *)
+Inductive shape := Distinct | SameDir | SharedEntry | Gated.
 
 Record case := {
   c_mf : list (dir * contents);
@@ -18,7 +19,8 @@ Record case := {
   c_behave : list (program * dir * args * result);
   c_invs : list inv;
   c_warm : list (ename * program);
-  c_seeds : list N;
+  c_seeds : list N;                                      (* random schedules *)
+  c_scheds : list (list nat);                            (* explicit schedules: the class a gated launch enforces *)
   c_shape : shape;
   c_observed : list (nat * result) }.
 
@@ -98,7 +100,9 @@ Definition model_alone (c : case) (i : nat) : option result :=
 (* per process: the set of results over all the schedules *)
 Definition allowed (c : case) : list (list (option result)) :=
   let n := length (c_invs c) in
-  let finals := map (fun seed => model_run c (sched_of n seed)) (c_seeds c) in
+  let finish := flat_map (fun i => repeat i fuel) (seq 0 n) in
+  let finals := map (fun seed => model_run c (sched_of n seed)) (c_seeds c)
+                ++ map (fun sc => model_run c (sc ++ finish)) (c_scheds c) in
   map (fun i => dedup ores_eqb (map (fun s => result_of s i) finals)) (seq 0 n).
 
 Record obs := {
@@ -128,6 +132,7 @@ Definition verdict (c : case) (m : obs) : option obs :=
   let ok := match o_unexplained m with [] => true | _ => false end &&
             match c_shape c with
             | Distinct => match o_model_not_solo m with [] => true | _ => false end
+            | Gated => true
             | _ => o_defect_shown m
             end in
   if ok then None else Some m.
